@@ -8,6 +8,7 @@ import GormModel.Gen.PreloadSessions
 import GormModel.Lemmas.Identity
 import GormModel.Model.PreloadBatch
 import GormModel.Lemmas.PreloadBatch
+import GormModel.Model.BindLookup
 namespace Gorm
 
 /-- `strings.Join(_, "_")` is injective on tuples of equal arity whose components contain no `_` -/
@@ -795,5 +796,212 @@ example : ∀ l : List (List KeyVal), (l.map (fun v => [v])).flatten = l := by
   intro l; induction l with
   | nil => rfl
   | cons x t ih => simp [List.flatten_cons, ih]
+
+-- ---- round 5: WHERE the key of a relation is declared — nested embedded structs ------------------------------------------
+
+/-- first hit of a descending scan: the largest index that answers -/
+theorem findSome_rev_range_closest {β : Type} (g : Nat → Option β) (n i : Nat) (f : β) (hi : i < n) (hg : g i = some f)
+    (hno : ∀ j, i < j → j < n → g j = none) : (List.range n).reverse.findSome? g = some f := by
+  induction n with
+  | zero => omega
+  | succ n ih =>
+    rw [List.range_succ, List.reverse_append]
+    by_cases h : i = n
+    · subst h
+      simp [hg]
+    · have hn : g n = none := hno n (by omega) (by omega)
+      simp only [List.reverse_cons, List.reverse_nil, List.nil_append, List.cons_append, List.findSome?_cons, hn]
+      exact ih (by omega) (fun j h1 h2 => hno j h1 (by omega))
+
+theorem findSome_rev_range_spec {β : Type} (g : Nat → Option β) (n : Nat) (f : β)
+    (h : (List.range n).reverse.findSome? g = some f) :
+    ∃ i, i < n ∧ g i = some f ∧ ∀ j, i < j → j < n → g j = none := by
+  induction n with
+  | zero => simp at h
+  | succ n ih =>
+    rw [List.range_succ, List.reverse_append] at h
+    simp only [List.reverse_cons, List.reverse_nil, List.nil_append, List.cons_append, List.findSome?_cons] at h
+    cases hn : g n with
+    | some b =>
+      rw [hn] at h
+      refine ⟨n, by omega, ?_, fun j h1 h2 => by omega⟩
+      rw [hn]; exact h
+    | none =>
+      rw [hn] at h
+      obtain ⟨i, hi, hgi, hno⟩ := ih h
+      refine ⟨i, by omega, hgi, fun j h1 h2 => ?_⟩
+      by_cases hj : j = n
+      · subst hj; exact hn
+      · exact hno j h1 (by omega)
+
+/-- THE INNERMOST ENCLOSING STRUCT'S FIELD WINS (schema.go LookUpFieldByBindName with the descending loop): if the struct
+    `i` levels down the relation's bind path declares a field `name` and no struct further down the path does, that field is
+    the answer — whatever the enclosing structs further out declare under the same name. -/
+theorem C11_bind_closest_wins (fs : List BField) (bn : List String) (name : String) (i : Nat) (f : BField)
+    (h0 : 0 < i) (hi : i < bn.length) (hf : byBind fs (bn.take i ++ [name]) = some f)
+    (hno : ∀ j, i < j → j < bn.length → byBind fs (bn.take j ++ [name]) = none) :
+    lookUpFieldByBindNameWith true fs bn name = some f := by
+  unfold lookUpFieldByBindNameWith bindOrder
+  simp only [if_true]
+  apply findSome_rev_range_closest _ _ i f hi
+  · unfold bindStep; rw [if_neg (by omega)]; exact hf
+  · intro j h1 h2; unfold bindStep; rw [if_neg (by omega)]; exact hno j h1 h2
+
+/-- … and nothing else: the answer of the descending loop is always the field of the closest enclosing struct that has one
+    (complete characterisation; level 0 — the model itself — is never looked at). -/
+theorem C11_bind_closest_iff (fs : List BField) (bn : List String) (name : String) (f : BField) :
+    lookUpFieldByBindNameWith true fs bn name = some f ↔
+      ∃ i, 0 < i ∧ i < bn.length ∧ byBind fs (bn.take i ++ [name]) = some f ∧
+        ∀ j, i < j → j < bn.length → byBind fs (bn.take j ++ [name]) = none := by
+  constructor
+  · intro h
+    unfold lookUpFieldByBindNameWith bindOrder at h
+    simp only [if_true] at h
+    obtain ⟨i, hi, hg, hno⟩ := findSome_rev_range_spec _ _ _ h
+    have h0 : i ≠ 0 := by
+      intro h0; subst h0; simp [bindStep] at hg
+    refine ⟨i, by omega, hi, ?_, fun j h1 h2 => ?_⟩
+    · unfold bindStep at hg; rw [if_neg h0] at hg; exact hg
+    · have := hno j h1 h2
+      unfold bindStep at this; rw [if_neg (by omega)] at this; exact this
+  · rintro ⟨i, h0, hi, hf, hno⟩
+    exact C11_bind_closest_wins fs bn name i f h0 hi hf hno
+
+/-- whatever the loop direction: an answer is a field of the schema declared under `name` in a struct ON the relation's bind
+    path, strictly below the model and at or above the struct that declares the relation -/
+theorem C11_bind_lookup_sound (d : Bool) (fs : List BField) (bn : List String) (name : String) (f : BField)
+    (h : lookUpFieldByBindNameWith d fs bn name = some f) :
+    ∃ i, 0 < i ∧ i < bn.length ∧ f.bind = bn.take i ++ [name] ∧ f ∈ fs := by
+  unfold lookUpFieldByBindNameWith at h
+  obtain ⟨i, hmem, hg⟩ := List.exists_of_findSome?_eq_some h
+  have hi : i < bn.length := by
+    unfold bindOrder at hmem
+    cases d <;> simp at hmem <;> exact hmem
+  have h0 : i ≠ 0 := by
+    intro h0; subst h0; simp [bindStep] at hg
+  unfold bindStep at hg; rw [if_neg h0] at hg
+  unfold byBind at hg
+  refine ⟨i, by omega, hi, ?_, List.mem_of_find?_eq_some hg⟩
+  have := List.find?_some hg
+  simpa using this
+
+/-- no enclosing struct below the model declares the name  ⇔  the lookup answers nothing (then guessRelation falls back to
+    LookUpField over the whole model) -/
+theorem C11_bind_lookup_none_iff (d : Bool) (fs : List BField) (bn : List String) (name : String) :
+    lookUpFieldByBindNameWith d fs bn name = none ↔
+      ∀ i, 0 < i → i < bn.length → byBind fs (bn.take i ++ [name]) = none := by
+  unfold lookUpFieldByBindNameWith
+  rw [List.findSome?_eq_none_iff]
+  constructor
+  · intro h i h0 hi
+    have hm : i ∈ bindOrder d bn.length := by
+      unfold bindOrder; cases d <;> simp <;> exact hi
+    have := h i hm
+    unfold bindStep at this; rw [if_neg (by omega)] at this; exact this
+  · intro h i hm
+    have hi : i < bn.length := by
+      unfold bindOrder at hm
+      cases d <;> simp at hm <;> exact hm
+    unfold bindStep
+    by_cases h0 : i = 0
+    · rw [if_pos h0]
+    · rw [if_neg h0]; exact h i (by omega) hi
+
+/-- the facts regenerated from schema/schema.go and schema/relationship.go: one loop, `i := len(bindNames) - 1; i >= 0; i--`,
+    key `strings.Join(bindNames[:i], ".") + "." + name`; guessRelation asks LookUpFieldByBindName before LookUpField -/
+theorem C11_bind_lookup_current_tree :
+    Gen.bindLookupFound = true ∧ Gen.bindLookupDescending = true ∧ Gen.bindLookupPrefixKey = true ∧
+      Gen.guessBindFirst = true := by decide
+
+/-- the closest enclosing struct wins in the CURRENT tree -/
+theorem C11_bind_closest_wins_current_tree (fs : List BField) (bn : List String) (name : String) (i : Nat) (f : BField)
+    (h0 : 0 < i) (hi : i < bn.length) (hf : byBind fs (bn.take i ++ [name]) = some f)
+    (hno : ∀ j, i < j → j < bn.length → byBind fs (bn.take j ++ [name]) = none) :
+    lookUpFieldByBindName fs bn name = some f := by
+  unfold lookUpFieldByBindName
+  rw [C11_bind_lookup_current_tree.2.1]
+  exact C11_bind_closest_wins fs bn name i f h0 hi hf hno
+
+/-- a loop that walks from the model INWARD answers the outermost same-named field: the relation `Outer.Inner.Country` would
+    take `Outer.CountryID` for its key although `Outer.Inner.CountryID` stands next to it -/
+theorem C11_bind_outermost_counterexample :
+    let fs : List BField := [⟨["Outer", "CountryID"], "o_country_id"⟩, ⟨["Outer", "Inner", "CountryID"], "o_i_country_id"⟩]
+    (lookUpFieldByBindNameWith false fs ["Outer", "Inner", "Country"] "CountryID").map (·.db) = some "o_country_id" ∧
+    (lookUpFieldByBindNameWith true fs ["Outer", "Inner", "Country"] "CountryID").map (·.db) = some "o_i_country_id" := by
+  decide
+
+/-- guessRelation: a key found by walking outward from the relation beats every same-named field elsewhere in the model -/
+theorem C11_guess_foreign_enclosing_first (d : Bool) (fs : List BField) (bn names : List String) (f : BField)
+    (h : names.findSome? (lookUpFieldByBindNameWith d fs bn) = some f) :
+    guessForeignWith d true fs bn names = some f := by
+  unfold guessForeignWith
+  simp [h]
+
+/-- … and only when NO candidate name is declared in any enclosing struct does the model-wide LookUpField decide -/
+theorem C11_guess_foreign_fallback (d : Bool) (fs : List BField) (bn names : List String)
+    (h : ∀ n ∈ names, lookUpFieldByBindNameWith d fs bn n = none) :
+    guessForeignWith d true fs bn names = names.findSome? (lookUpField fs) := by
+  unfold guessForeignWith
+  have : names.findSome? (lookUpFieldByBindNameWith d fs bn) = none := List.findSome?_eq_none_iff.mpr h
+  simp [this]
+
+/-- the reference gorm's conventions define, current tree: the first candidate name `<Field><PK>` declared by the closest
+    enclosing struct is the relation's foreign key -/
+theorem C11_guess_foreign_closest_current_tree (fs : List BField) (bn : List String) (name : String) (rest : List String)
+    (i : Nat) (f : BField) (h0 : 0 < i) (hi : i < bn.length) (hf : byBind fs (bn.take i ++ [name]) = some f)
+    (hno : ∀ j, i < j → j < bn.length → byBind fs (bn.take j ++ [name]) = none) :
+    guessForeign fs bn (name :: rest) = some f := by
+  unfold guessForeign
+  rw [C11_bind_lookup_current_tree.2.1, C11_bind_lookup_current_tree.2.2.2]
+  apply C11_guess_foreign_enclosing_first
+  simp [C11_bind_closest_wins fs bn name i f h0 hi hf hno]
+
+/-- LookUpField answers a field of the schema whose column or Go name is the text asked for -/
+theorem C11_lookup_field_sound (fs : List BField) (name : String) (f : BField) (h : lookUpField fs name = some f) :
+    f ∈ fs ∧ (f.db = name ∨ f.name = name) := by
+  unfold lookUpField at h
+  cases hdb : byDB fs name with
+  | some g =>
+    rw [hdb] at h
+    have hg : g = f := by simpa using h
+    subst hg
+    unfold byDB at hdb
+    exact ⟨List.mem_of_find?_eq_some hdb, Or.inl (by simpa using List.find?_some hdb)⟩
+  | none =>
+    rw [hdb] at h
+    unfold byName at h
+    have hm : f ∈ fs.filter (fun f => f.name == name) := List.mem_of_getLast? h
+    rw [List.mem_filter] at hm
+    exact ⟨hm.1, Or.inr (by simpa using hm.2)⟩
+
+/-- finding F35: `Preload(clause.Associations, "n = ?", 7)` reaches a relation declared in an `embedded`-tagged struct with
+    the conditions TWICE, and Find(dest, "n = ?", 7, "n = ?", 7) is ill-formed (one placeholder, three arguments) -/
+theorem C11_assoc_conds_embedded_counterexample :
+    assocCondsReaching 1 ["n = ?", "7"] = ["n = ?", "7", "n = ?", "7"] ∧
+      inlineWellFormed 1 (assocCondsReaching 1 ["n = ?", "7"]) = false := by decide
+
+/-- whenever the relation sits in an `embedded`-tagged struct, an inline condition with arguments is ill-formed -/
+theorem C11_assoc_conds_embedded_illformed {α : Type} (depth k : Nat) (q : α) (as : List α) (hd : 0 < depth) (hk : as.length = k) :
+    inlineWellFormed k (assocCondsReaching depth (q :: as)) = false := by
+  unfold assocCondsReaching inlineWellFormed
+  rw [if_neg (by omega)]
+  simp only [List.cons_append, List.length_append, List.length_cons, hk]
+  simp
+
+/-- outside the finding's pattern (relation declared at the top level / in an untagged anonymous struct) the conditions
+    arrive once and a well-formed inline condition stays well-formed -/
+theorem C11_assoc_conds_partial {α : Type} (args : List α) : assocCondsReaching 0 args = args := by
+  simp [assocCondsReaching]
+
+theorem C11_assoc_conds_wellformed_partial {α : Type} (k : Nat) (q : α) (as : List α) (hk : as.length = k) :
+    inlineWellFormed k (assocCondsReaching 0 (q :: as)) = true := by
+  simp [assocCondsReaching, inlineWellFormed, hk]
+
+example : ∃ fs bn name i f, 0 < i ∧ i < List.length bn ∧ byBind fs (bn.take i ++ [name]) = some f ∧
+    (∀ j, i < j → j < bn.length → byBind fs (bn.take j ++ [name]) = none) ∧ fs.length = 2 :=
+  ⟨[⟨["Outer", "CountryID"], "o_country_id"⟩, ⟨["Outer", "Inner", "CountryID"], "o_i_country_id"⟩],
+    ["Outer", "Inner", "Country"], "CountryID", 2, ⟨["Outer", "Inner", "CountryID"], "o_i_country_id"⟩,
+    by decide, by decide, by decide, by intro j h1 h2; simp at h2; omega, rfl⟩
+
 
 end Gorm
